@@ -104,6 +104,7 @@ pub fn gen(prop: &str, tier: &str, seed: u64, out: &mut Vec<String>) {
                     for i in 0..n_entries {
                         out.push(format!("ob {b} {bs} {}", ENTRIES[(start + i) % ENTRIES.len()]));
                     }
+                    out.push(format!("glue {b} {bs}"));
                 }
             }
         }
